@@ -12,7 +12,8 @@ META = {
              "committed header NAMES, as its own validator set, the set the chain prescribes for its height (chain_vals) - after the repo "
              "fix that compares the field, found while proving kernel totality. Monitored on the real mirror on every run (consistency "
              "flags computed with the real hash scheme; own set of each committed header = next set of the header below). Partial: the "
-             "state-machine half (set used at h+2 = driver's finalization of h) is decided in C08's state-machine model; restart is C10.",
+             "state-machine half (set used at h+2 = driver's finalization of h) is decided in C08's state-machine model; restart: proved in "
+             "C10, and the generated histories here include crashes and restarts after validator-set changes.",
     "note": "Trusted: Coq kernel; vs_ok / hd_ok flags stand for hash equality (no collisions among generated inputs); "
             "correspondence harness. No axioms.",
     "design_ref": "DESIGN.md 4 (C01/C04/C05/C07)",
